@@ -22,7 +22,7 @@ using vk::error_code;
 enum { MAXPK = 24, MAXOPS = 6, RXCAP = 512, OUTCAP = 256, MAXMSG = 8 };
 
 // one packet the broker received from the client (decoded by the reference decoder)
-struct pkt_rec { uint8_t type, qos, rc; bool dup, retain, has_rc; uint16_t pid; int epoch; uint32_t off, len; int write_no; };
+struct pkt_rec { uint8_t type, qos, rc; bool dup, retain, has_rc; uint16_t pid; int epoch; uint32_t off, len; int write_no; int aux; };
 // one user operation
 struct op_rec { int kind; int done; int ec; int rc; int rcs[3]; int nrcs; bool inline_completion; int64_t t_done; uint16_t pid_seen; };
 // one message handed to the application by async_receive
@@ -65,7 +65,7 @@ struct W {
       vk_assert(npk < MAXPK, "harness: packet log capacity");
       pkt_rec& r = pk[npk++];
       r.type = k.type; r.qos = k.type == ref::PUBLISH ? k.qos : 0; r.dup = k.type == ref::PUBLISH && k.dup; r.retain = k.type == ref::PUBLISH && k.retain;
-      r.rc = k.rc; r.has_rc = k.has_rc; r.pid = k.pid; r.epoch = epoch; r.off = (uint32_t)rx_parsed; r.len = k.total; r.write_no = writes_completed;
+      r.rc = k.rc; r.has_rc = k.has_rc; r.pid = k.pid; r.epoch = epoch; r.off = (uint32_t)rx_parsed; r.len = k.total; r.write_no = writes_completed; r.aux = -1;
       rx_parsed += k.total;
       vk_event(100 + k.type, ((uint64_t)epoch << 32) | ((uint64_t)r.qos << 24) | ((uint64_t)r.dup << 20) | ((uint64_t)r.rc << 16) | k.pid);
     }
@@ -113,7 +113,13 @@ struct W {
     bool ok = establish(); vk_assert(ok, "harness: connection attempt in progress");
     send_connack(session_present, 0, props, plen); feed_all(); vk::drain();
   }
-  bool connected() const { auto* s = vk::pending_read(); return s && s->connected && connack_sent && out_avail() == 0; }
+  bool connected() const { auto* s = vk::pending_read(); return s && s->connected && !s->shut && connack_sent && out_avail() == 0; }
+  // the client is trying to (re)connect: a resolve or TCP connect is pending, or it pauses on the backoff timer
+  bool attempt_in_progress() const {
+    if (vk::pending_resolve() || vk::pending_connect()) return true;
+    vk::timer_rec* t = vk::world().timers.size() > 1 ? vk::world().timers[1] : nullptr;
+    return t && t->armed && !vk::pending_read();
+  }
 
   // ------------------------------------------------------------ user operations
   int new_op(int kind) { vk_assert(nops < MAXOPS, "harness: op capacity"); op_rec& o = ops[nops]; o = op_rec{}; o.kind = kind; o.ec = -1; o.rc = -1; return nops++; }
